@@ -169,7 +169,7 @@ func (m *model) patternOf(w []WP, dq bool) string {
 			if s.Quoted {
 				for _, r := range s.Text {
 					switch r {
-					case '*', '?', '[', '\\', ']', '-', '!', '^':
+					case '*', '?', '[', '\\', ']', '-', '!', '^', ':':
 						// (the last four matter inside an unquoted bracket expression)
 						b.WriteByte('\\')
 					}
